@@ -1,8 +1,8 @@
 (* Conc: statement-level small-step semantics of several workers racing on one workflow (C04, C11).
 
-   Durable state = Engine.state (stage rows with version / status / the engine-owned context flags, the claim
-   table, the queue as the list of pushed rows, the processed marks, the ghost ledger of NOT_STARTED->RUNNING
-   claim commits).  Each WORKER is a program counter over the statements of one handler invocation:
+   Durable state = stage rows with version / status / the engine-owned context flags, the claim table, the queue
+   as the list of pushed rows, the processed marks, the ghost ledger of NOT_STARTED->RUNNING claim commits (the
+   record types of coq/model/Engine.v restricted to what the programs touch).  Each WORKER is a program counter over the statements of one handler invocation:
 
      Read steps  - each SELECT whose result the handler uses is its own atomic snapshot of the durable state
                    (Python's sqlite3 opens no transaction for a SELECT): retrieve_stage; get_upstream_stages;
@@ -31,8 +31,193 @@
    expiry checks, the data merged by _plan_stage (C16), task rows' own versions (C07). *)
 From Coq Require Import List Bool Arith ZArith Lia.
 Import ListNotations.
-From Stab.model Require Import Base StatusM Readiness StageStat Engine.
+From Stab.model Require Import Base StatusM Readiness StageStat.
 From Stab.gen Require Import Gen_Config Gen_Guards Gen_Occ Gen_Conc.
+
+(* ------------------------------------------------------------------------------------------ *)
+(* durable state                                                                               *)
+(* The record types and the functions get_stage .. siblings_not_started below are the ones of  *)
+(* coq/model/Engine.v (validated at commit granularity by harness/engine_corr.py), restricted  *)
+(* to the fields the three programs read or write; Conc keeps its own copy so that the engine  *)
+(* model can grow (new handlers, new stage fields) without touching the race proofs.  User     *)
+(* context / outputs are not represented (C16); a task is its status.                          *)
+(* ------------------------------------------------------------------------------------------ *)
+
+Record stage := {
+  s_reqs : list nat;                 (* requisite_stage_ref_ids, as stage indices *)
+  s_join : join_type;
+  s_threshold : Z;
+  s_cof : bool;                      (* context.continuePipelineOnFailure *)
+  s_fp : bool;                       (* context.failPipeline (default true) *)
+  s_enabled : option bool;           (* context.stageEnabled when it is a bool literal *)
+  s_mutex : option nat;              (* mutex_key *)
+  s_choice : option nat;             (* deferred_choice_group *)
+  s_status : status;
+  s_started : bool;                  (* start_time is not None *)
+  s_ended : bool;                    (* end_time is not None *)
+  s_version : Z;
+  s_fired : bool;                    (* context._join_fired *)
+  s_branches : list nat;             (* context._completed_branches *)
+  s_bypass : bool;                   (* context._jump_bypass *)
+  s_jump_count : Z;                  (* context._jump_count (0 when absent) *)
+  s_buffered : list nat;             (* context._buffered_signals (signal name tags) *)
+  s_has_exc : bool;                  (* "exception" in context *)
+  s_plan_pending : bool;             (* context._plan_pending: claimed, plan commit still to come *)
+  s_tasks : list status;             (* task statuses *)
+}.
+
+Inductive msg :=
+| MCompleteWorkflow (retry : Z)
+| MStartStage (s : nat) (retry : Z)
+| MCompleteStage (s : nat)
+| MSkipStage (s : nat)
+| MCancelStage (s : nat)
+| MStartTask (s t : nat)
+| MSignalStage (s name : nat) (persistent : bool)
+| MOther (code s t : nat).           (* a queue row of a type none of the programs pushes *)
+
+Record qrow := { q_id : nat; q_msg : msg }.
+
+Record state := {
+  w_status : status;                 (* pipeline_executions.status *)
+  w_stages : list stage;
+  w_queue : list qrow;               (* in id order *)
+  w_next : nat;                      (* next AUTOINCREMENT id *)
+  w_processed : list nat;            (* processed_messages (row ids), newest first *)
+  w_claims : list (bool * nat * nat);(* stage_claims of this execution: (is_mutex, key, owner stage) *)
+  g_starts : list (nat * Z);         (* ghost: NOT_STARTED->RUNNING claim commits (stage, jump_count), newest first *)
+}.
+
+Definition get_stage (s : state) (i : nat) : option stage := nth_error (w_stages s) i.
+
+Fixpoint list_set {A} (l : list A) (i : nat) (x : A) : list A :=
+  match l, i with
+  | [], _ => []
+  | _ :: r, O => x :: r
+  | a :: r, S j => a :: list_set r j x
+  end.
+
+Definition put_stage (i : nat) (st : stage) (s : state) : state :=
+  {| w_status := w_status s; w_stages := list_set (w_stages s) i st; w_queue := w_queue s; w_next := w_next s;
+     w_processed := w_processed s; w_claims := w_claims s; g_starts := g_starts s |}.
+
+Definition push (m : msg) (s : state) : state :=
+  {| w_status := w_status s; w_stages := w_stages s; w_queue := w_queue s ++ [{| q_id := w_next s; q_msg := m |}];
+     w_next := S (w_next s); w_processed := w_processed s; w_claims := w_claims s; g_starts := g_starts s |}.
+
+Definition mark (id : nat) (s : state) : state :=
+  {| w_status := w_status s; w_stages := w_stages s; w_queue := w_queue s; w_next := w_next s;
+     w_processed := if mem_nat id (w_processed s) then w_processed s else id :: w_processed s;
+     w_claims := w_claims s; g_starts := g_starts s |}.
+
+Definition with_claims (c : list (bool * nat * nat)) (s : state) : state :=
+  {| w_status := w_status s; w_stages := w_stages s; w_queue := w_queue s; w_next := w_next s;
+     w_processed := w_processed s; w_claims := c; g_starts := g_starts s |}.
+
+Definition ghost_start (i : nat) (jc : Z) (s : state) : state :=
+  {| w_status := w_status s; w_stages := w_stages s; w_queue := w_queue s; w_next := w_next s;
+     w_processed := w_processed s; w_claims := w_claims s; g_starts := (i, jc) :: g_starts s |}.
+
+(* store_stage of an object whose only changes are the given ones; version + 1 *)
+Definition st_set (st : stage) (status : status) (started ended : bool) (fired : bool) (branches : list nat)
+           (has_exc : bool) (tasks : list status) : stage :=
+  {| s_reqs := s_reqs st; s_join := s_join st; s_threshold := s_threshold st; s_cof := s_cof st; s_fp := s_fp st;
+     s_enabled := s_enabled st; s_mutex := s_mutex st; s_choice := s_choice st;
+     s_status := status; s_started := started; s_ended := ended; s_version := s_version st + 1;
+     s_fired := fired; s_branches := branches; s_bypass := s_bypass st; s_jump_count := s_jump_count st;
+     s_buffered := s_buffered st; s_has_exc := has_exc; s_plan_pending := s_plan_pending st; s_tasks := tasks |}.
+
+Definition st_status (st : stage) (x : status) : stage :=
+  st_set st x (s_started st) (s_ended st) (s_fired st) (s_branches st) (s_has_exc st) (s_tasks st).
+Definition st_touch (st : stage) : stage := st_status st (s_status st).
+Definition st_end (st : stage) (x : status) : stage :=
+  st_set st x (s_started st) true (s_fired st) (s_branches st) (s_has_exc st) (s_tasks st).
+Definition st_exc (st : stage) : stage :=
+  st_set st (s_status st) (s_started st) (s_ended st) (s_fired st) (s_branches st) true (s_tasks st).
+
+(* in-memory changes of the engine-owned context flags (no store: the version is untouched) *)
+Definition st_ctl (st : stage) (bypass : bool) (buffered : list nat) : stage :=
+  {| s_reqs := s_reqs st; s_join := s_join st; s_threshold := s_threshold st; s_cof := s_cof st; s_fp := s_fp st;
+     s_enabled := s_enabled st; s_mutex := s_mutex st; s_choice := s_choice st;
+     s_status := s_status st; s_started := s_started st; s_ended := s_ended st; s_version := s_version st;
+     s_fired := s_fired st; s_branches := s_branches st; s_bypass := bypass; s_jump_count := s_jump_count st;
+     s_buffered := buffered; s_has_exc := s_has_exc st; s_plan_pending := s_plan_pending st; s_tasks := s_tasks st |}.
+
+Definition with_pending (st : stage) (p : bool) : stage :=
+  {| s_reqs := s_reqs st; s_join := s_join st; s_threshold := s_threshold st; s_cof := s_cof st; s_fp := s_fp st;
+     s_enabled := s_enabled st; s_mutex := s_mutex st; s_choice := s_choice st;
+     s_status := s_status st; s_started := s_started st; s_ended := s_ended st; s_version := s_version st;
+     s_fired := s_fired st; s_branches := s_branches st; s_bypass := s_bypass st; s_jump_count := s_jump_count st;
+     s_buffered := s_buffered st; s_has_exc := s_has_exc st; s_plan_pending := p; s_tasks := s_tasks st |}.
+
+Definition seqn (n : nat) : list nat := seq 0 n.
+
+(* get_downstream_stages: stages whose requisites contain i, in creation (row) order *)
+Definition downstream (s : state) (i : nat) : list nat :=
+  filter (fun j => match get_stage s j with Some d => mem_nat i (s_reqs d) | None => false end)
+         (seqn (length (w_stages s))).
+
+(* get_upstream_stages: the requisites found, in row order, with their durable status *)
+Definition upstream (s : state) (st : stage) : list up :=
+  flat_map (fun j => match get_stage s j with
+                     | Some u => if mem_nat j (s_reqs st) then [(j, s_status u)] else []
+                     | None => [] end)
+           (seqn (length (w_stages s))).
+
+Definition rstage_of (st : stage) : rstage :=
+  {| r_join := s_join st; r_threshold := s_threshold st; r_fired := s_fired st; r_activated := None |}.
+
+Definition should_skip (st : stage) : bool :=
+  match s_enabled st with Some false => true | _ => false end.
+
+(* _is_mutex_blocked / _is_deferred_choice_claimed on a snapshot of all stages (status tests from Gen_Conc) *)
+Definition mutex_blocked (s : state) (i : nat) (st : stage) : bool :=
+  match s_mutex st with
+  | None => false
+  | Some k => existsb (fun j => negb (j =? i) &&
+                 match get_stage s j with
+                 | Some o => match s_mutex o with Some k' => (k =? k') && mutex_blocks (s_status o) | None => false end
+                 | None => false end) (seqn (length (w_stages s)))
+  end.
+
+Definition choice_claimed (s : state) (i : nat) (st : stage) : bool :=
+  match s_choice st with
+  | None => false
+  | Some g => existsb (fun j => negb (j =? i) &&
+                 match get_stage s j with
+                 | Some o => match s_choice o with Some g' => (g =? g') && choice_blocks (s_status o) | None => false end
+                 | None => false end) (seqn (length (w_stages s)))
+  end.
+
+Definition claim_lookup (cl : list (bool * nat * nat)) (is_mutex : bool) (k : nat) : option nat :=
+  match find (fun c => Bool.eqb (fst (fst c)) is_mutex && (snd (fst c) =? k)) cl with
+  | Some c => Some (snd c)
+  | None => None
+  end.
+
+(* AtomicTransaction.acquire_claim inside one write transaction: (acquired?, new claim table) *)
+Definition acquire_claim (s : state) (is_mutex : bool) (k : nat) (i : nat) (steal : bool) : bool * list (bool * nat * nat) :=
+  match claim_lookup (w_claims s) is_mutex k with
+  | None => (true, w_claims s ++ [(is_mutex, k, i)])
+  | Some owner =>
+      if owner =? i then (true, w_claims s)
+      else if steal && match get_stage s owner with Some o => is_complete (s_status o) | None => true end
+           then (true, map (fun c => if Bool.eqb (fst (fst c)) is_mutex && (snd (fst c) =? k) then (is_mutex, k, i) else c) (w_claims s))
+      else (false, w_claims s)
+  end.
+
+(* _collect_start_messages without synthetic stages *)
+Definition first_msgs (i : nat) (st : stage) : list msg :=
+  match s_tasks st with
+  | [] => [MCompleteStage i]
+  | _ => [MStartTask i 0]
+  end.
+
+Definition siblings_not_started (s : state) (i : nat) (g : nat) : list nat :=
+  filter (fun j => negb (j =? i) &&
+            match get_stage s j with
+            | Some o => match s_choice o with Some g' => (g =? g') && sibling_cancelled (s_status o) | None => false end
+            | None => false end) (seqn (length (w_stages s))).
 
 (* ------------------------------------------------------------------------------------------ *)
 (* queue-only writes, stage modifications                                                      *)
@@ -62,28 +247,26 @@ Definition apply_mod (m : wmod) (o : stage) : stage :=
   | MPlan =>
       with_pending (st_set o (s_status o) (s_started o) (s_ended o)
                            (match s_join o with J_DISCRIMINATOR | J_N_OF_M => true | _ => s_fired o end)
-                           (s_branches o) (s_has_exc o) (s_ctx o) (s_outs o) (s_tasks o)) false
+                           (s_branches o) (s_has_exc o) (s_tasks o)) false
   | MTerminal =>
       if status_eqb (s_status o) NOT_STARTED
-      then st_set o TERMINAL (s_started o) true (s_fired o) (s_branches o) true (s_ctx o) (s_outs o) (s_tasks o)
+      then st_set o TERMINAL (s_started o) true (s_fired o) (s_branches o) true (s_tasks o)
       else st_exc o
   | MBranch b =>
-      st_set o (s_status o) (s_started o) (s_ended o) (s_fired o) (s_branches o ++ [b]) (s_has_exc o)
-             (s_ctx o) (s_outs o) (s_tasks o)
+      st_set o (s_status o) (s_started o) (s_ended o) (s_fired o) (s_branches o ++ [b]) (s_has_exc o) (s_tasks o)
   | MEnd x => if end_ok x then st_end o x else st_touch o
-  | MBuffer n => st_touch (st_ctl o (s_bypass o) (s_jump_count o) (s_buffered o ++ [n]) (s_signal o))
+  | MBuffer n => st_touch (st_ctl o (s_bypass o) (s_buffered o ++ [n]))
   end.
 
 (* `del stage.context["_jump_bypass"]` done in memory before the readiness evaluation *)
 Definition eff (st : stage) : stage :=
-  if s_bypass st then st_ctl st false (s_jump_count st) (s_buffered st) (s_signal st) else st.
+  if s_bypass st then st_ctl st false (s_buffered st) else st.
 
 (* the object the claim transaction stores: zombie re-plan (stage already RUNNING) stores it unchanged *)
 Definition claim_obj (st : stage) : stage :=
   let e := eff st in
   if status_eqb (s_status e) claim_phase_zombie then st_touch e
-  else with_pending (st_set e RUNNING true (s_ended e) (s_fired e) (s_branches e) (s_has_exc e)
-                            (s_ctx e) (s_outs e) (s_tasks e)) true.
+  else with_pending (st_set e RUNNING true (s_ended e) (s_fired e) (s_branches e) (s_has_exc e) (s_tasks e)) true.
 
 (* ------------------------------------------------------------------------------------------ *)
 (* workers                                                                                     *)
@@ -233,7 +416,7 @@ Definition claim_step (s : state) (id i : nat) (retry : Z) (st : stage) : effect
       | None => (ENone, PUnmodelled)
       end.
 
-(* _cancel_deferred_choice_siblings (Engine.siblings_not_started hard-codes Gen_Conc.sibling_cancelled = NOT_STARTED) *)
+(* _cancel_deferred_choice_siblings: one queue.push(CancelStage) per sibling seen NOT_STARTED, each its own commit *)
 Definition sibs_pc (s : state) (id i : nat) (cl : stage) : pc :=
   commits (match s_choice cl with
            | Some g => map (fun j => [QPush (MCancelStage j)]) (siblings_not_started s i g)
@@ -268,7 +451,7 @@ Definition complete_read (s : state) (k : wkind) (outer id b : nat) : pc :=
       else if negb (complete_stage_guard (s_status st)) then
         (if is_halt (s_status st) then commits [[QMark id; QPush (MCompleteWorkflow 0)]] PMark else PMark)
       else
-        let x := determine_status (s_status st) (s_cof st) (s_fp st) [] (map t_status (s_tasks st)) [] in
+        let x := determine_status (s_status st) (s_cof st) (s_fp st) [] (s_tasks st) [] in
         if status_eqb x RUNNING then commits [[QMark id]] PMark
         else if negb (can_transition (s_status st) x) then PRaised
         else if success_like x then CReadDown outer st x
@@ -425,17 +608,15 @@ Definition mk_stage (reqs : list nat) (join : join_type) (threshold : Z) (mutex 
            (st : status) (started : bool) (version : Z) (fired : bool) (branches : list nat) (buffered : list nat)
            (pending : bool) (tasks : list status) : stage :=
   {| s_reqs := reqs; s_join := join; s_threshold := threshold; s_cof := false; s_fp := true; s_enabled := None;
-     s_mutex := mutex; s_choice := choice; s_max_jumps := None; s_status := st; s_started := started;
+     s_mutex := mutex; s_choice := choice; s_status := st; s_started := started;
      s_ended := is_complete st; s_version := version; s_fired := fired; s_branches := branches; s_bypass := false;
-     s_jump_count := 0; s_buffered := buffered; s_signal := None; s_has_exc := false; s_plan_pending := pending;
-     s_hydrated := []; s_ctx := []; s_outs := [];
-     s_tasks := map (fun x => {| t_status := x; t_started := negb (status_eqb x NOT_STARTED); t_disabled := false |}) tasks |}.
+     s_jump_count := 0; s_buffered := buffered; s_has_exc := false; s_plan_pending := pending; s_tasks := tasks |}.
 
 Definition mk_state (wst : status) (stages : list stage) (queue : list (nat * msg)) (next : nat)
            (claims : list (bool * nat * nat)) : state :=
-  {| w_status := wst; w_canceled := false; w_max_jumps := None; w_stages := stages;
-     w_queue := map (fun p => {| q_id := fst p; q_msg := snd p; q_attempts := 1 |}) queue; w_next := next;
-     w_processed := []; w_claims := claims; g_execs := []; g_starts := [] |}.
+  {| w_status := wst; w_stages := stages;
+     w_queue := map (fun p => {| q_id := fst p; q_msg := snd p |}) queue; w_next := next;
+     w_processed := []; w_claims := claims; g_starts := [] |}.
 
 (* per stage: status, version, _plan_pending, _join_fired, _completed_branches, #_buffered_signals *)
 Definition stage_view (st : stage) : status * Z * bool * bool * list nat * nat :=
@@ -444,19 +625,14 @@ Definition stage_view (st : stage) : status * Z * bool * bool * list nat * nat :
 (* message as the harness prints it: (type code, stage, task-or-0, retry) *)
 Definition msg_view (m : msg) : nat * nat * nat * Z :=
   match m with
-  | MStartWorkflow => (0, 0, 0, 0%Z)
   | MCompleteWorkflow r => (1, 0, 0, r)
-  | MCancelWorkflow => (2, 0, 0, 0%Z)
   | MStartStage s r => (3, s, 0, r)
   | MCompleteStage s => (4, s, 0, 0%Z)
   | MSkipStage s => (5, s, 0, 0%Z)
   | MCancelStage s => (6, s, 0, 0%Z)
   | MStartTask s t => (7, s, t, 0%Z)
-  | MRunTask s t => (8, s, t, 0%Z)
-  | MCompleteTask s t _ => (9, s, t, 0%Z)
-  | MJumpToStage s t _ _ => (10, s, t, 0%Z)
   | MSignalStage s n _ => (11, s, n, 0%Z)
-  | _ => (99, 0, 0, 0%Z)            (* message types outside the programs of this model *)
+  | MOther c s t => (c, s, t, 0%Z)
   end.
 
 Record view := {
